@@ -593,6 +593,8 @@ class Executor:
                     f = st.facts[d]
                     if f[0] == 'is':
                         known = f[1]
+                if known is None:
+                    known = self._implied(st, d)
                 feasible = []
                 for v, tgt in targets:
                     if known is not None:
@@ -632,6 +634,7 @@ class Executor:
                     else:
                         s2.facts[d] = ('is', v)
                     s2.events.append(self._cond_event(body, block, t, d, v, vals, depth))
+                    self._derive(s2, d)
                     for r in self._exec(body, fid, tgt, s2, depth):
                         yield r
                 return
@@ -737,6 +740,56 @@ class Executor:
             del st.store[Q]
             st.havocs.append((Q, cid, None))
         st.facts = {k: v for k, v in st.facts.items() if not _mentions_loopy(k)}
+
+    # -- cross-fact reasoning between `x == Enum::Variant` tests and discriminant switches on x ------------
+    def _variant_test(self, d):
+        """(subject value, adt, variant, is_eq) if d is `subject ==/!= fieldless-variant-constant`."""
+        if d[0] == 'binop' and d[1] in ('Eq', 'Ne'):
+            for x, y in ((d[2], d[3]), (d[3], d[2])):
+                if y[0] == 'variant' and x[0] != 'variant':
+                    return x, y[1], y[2], d[1] == 'Eq'
+        return None
+
+    def _variant_discr(self, adt, name):
+        if adt in self.facts.adts:
+            for x in self.facts.adts[adt]['variants']:
+                if x['name'] == name:
+                    return str(x['discr'])
+        return None
+
+    def _derive(self, st, d):
+        vt = self._variant_test(d)
+        if vt is None or d not in st.facts or st.facts[d][0] != 'is':
+            return
+        subj, adt, name, is_eq = vt
+        dv = self._variant_discr(adt, name)
+        if dv is None:
+            return
+        truth = st.facts[d][1] == '1'
+        key = ('discr', subj, adt)
+        if truth == is_eq:
+            st.facts[key] = ('is', dv)
+        else:
+            prev = st.facts.get(key)
+            if prev is None or prev[0] == 'not':
+                st.facts[key] = ('not', frozenset((prev[1] if prev else frozenset()) | {dv}))
+
+    def _implied(self, st, d):
+        """Value of a boolean `x == Variant` test implied by what is already known about discr(x)."""
+        vt = self._variant_test(d)
+        if vt is None:
+            return None
+        subj, adt, name, is_eq = vt
+        dv = self._variant_discr(adt, name)
+        f = st.facts.get(('discr', subj, adt))
+        if dv is None or f is None:
+            return None
+        if f[0] == 'is':
+            same = (f[1] == dv)
+            return '1' if same == is_eq else '0'
+        if f[0] == 'not' and dv in f[1]:
+            return '0' if is_eq else '1'
+        return None
 
     def _is_user_place(self, body, P):
         return False
